@@ -69,7 +69,29 @@ func execC20Type(c *child.Ctx, t int, r *ref.SplitMix64, extraBodies int) {
 	}
 	c.Count("predicate_checks", 5)
 	if t < 0 {
-		// the sentinels have no frame; they must still display
+		// the sentinels have no frame; they must still display - also when what they hold
+		// is the first few bytes of something that looked like a frame
+		var raws [][]byte
+		raws = append(raws, []byte("$GPGGA junk"), nil)
+		begin := []byte{0xd3, 0x00, 0x13, 0x3e, 0xd0, 0x00, 0x03, 0x8a, 0x00}
+		for n := 1; n <= len(begin); n++ {
+			raws = append(raws, begin[:n])
+		}
+		for _, raw := range raws {
+			for _, lvl := range []slog.Level{slog.LevelInfo, slog.LevelDebug} {
+				m := handler.Message{MessageType: t, RawData: raw, LogLevel: lvl}
+				func() {
+					defer func() {
+						if rr := recover(); rr != nil {
+							viol("display", fmt.Sprintf("display of a type %d message holding the %d bytes % x panicked: %v", t, len(raw), raw, rr), kk)
+						}
+					}()
+					if len(m.String()) == 0 {
+						viol("display", fmt.Sprintf("display of sentinel type %d is empty", t), kk)
+					}
+				}()
+			}
+		}
 		for _, lvl := range []slog.Level{slog.LevelInfo, slog.LevelDebug} {
 			m := handler.Message{MessageType: t, RawData: []byte("$GPGGA junk"), LogLevel: lvl}
 			func() {
@@ -225,15 +247,22 @@ func execC20Type(c *child.Ctx, t int, r *ref.SplitMix64, extraBodies int) {
 				}
 			}
 			if body == "msm4" {
-				_, err := msm4msg.GetMessage(frame, slog.LevelInfo)
+				dm, err := msm4msg.GetMessage(frame, slog.LevelInfo)
 				if (err == nil) != is4 {
 					c.Violate("decoder-family", fmt.Sprintf("MSM4 decoder on type %d with a well-formed MSM4 body: error %v", t, err), cj)
 				}
+				// the decoded message says the same about its type and constellation as the tables
+				if err == nil && is4 && dm != nil && dm.Header != nil && (dm.Header.Constellation != c20MSM4[t] || int(dm.Header.MessageType) != t) {
+					c.Violate("constellation", fmt.Sprintf("a decoded type %d message says it is type %d of constellation %q; GetConstellation says %q", t, dm.Header.MessageType, dm.Header.Constellation, utils.GetConstellation(t)), cj)
+				}
 			}
 			if body == "msm7" {
-				_, err := msm7msg.GetMessage(frame, slog.LevelInfo)
+				dm, err := msm7msg.GetMessage(frame, slog.LevelInfo)
 				if (err == nil) != is7 {
 					c.Violate("decoder-family", fmt.Sprintf("MSM7 decoder on type %d with a well-formed MSM7 body: error %v", t, err), cj)
+				}
+				if err == nil && is7 && dm != nil && dm.Header != nil && (dm.Header.Constellation != c20MSM7[t] || int(dm.Header.MessageType) != t) {
+					c.Violate("constellation", fmt.Sprintf("a decoded type %d message says it is type %d of constellation %q; GetConstellation says %q", t, dm.Header.MessageType, dm.Header.Constellation, utils.GetConstellation(t)), cj)
 				}
 			}
 			if body == "msm4-continued-empty" || body == "msm7-continued-empty" {
